@@ -259,6 +259,56 @@ def _ptrace_literal_ok(lit: str, layout: Optional[str]) -> Optional[bool]:
     return True
 
 
+def _judge_born(fi: FuncInfo, cfg: CFG, node: Node, lvl: str, sl: "Slice", gen_ok) -> Tuple[str, str, str]:
+    """(ok|bad|skip, reason, slice text) for one probability expression at one representation level"""
+    chain = [x for x, _ in sl.chain]
+    det = " ".join(f"{a}" + (f"<{b}>" if b and a in ("GEN", "PTRACE-LIT", "REDUCE") else "") for a, b in sl.chain)
+    if sl.unknown or "EINSUM?" in chain or not chain or chain[-1] != "STATE":
+        return ("skip", f"slice of p= not understood ({sl.unknown or 'ends at ' + (chain[-1] if chain else '?')})", det)
+    core = [x for x in chain if x not in ("SHAPE", "DIVSUM", "ARRAY")]
+    verdict = None
+    if lvl == "Vector":
+        # REDUCE/GEN(vector marginal)* ABS2 INDEX* STATE
+        if "ABS2" not in core:
+            verdict = "amplitudes are not modulus-squared" + (" (only |.|, no square)" if "ABS" in core else "")
+        else:
+            i = core.index("ABS2")
+            inner = core[i + 1:]
+            outer = core[:i]
+            if any(x in ("REDUCE", "GEN") for x in inner):
+                verdict = "the modulus-square is applied *after* the amplitudes of the other subsystems were summed (|sum a|^2 instead of sum |a|^2): interference between bystander components corrupts the marginal"
+            elif any(x not in ("REDUCE", "GEN", "REAL", "INDEX") for x in outer):
+                verdict = f"unexpected primitive outside |.|^2: {outer}"
+            elif any(x not in ("INDEX", "STATE") for x in inner):
+                verdict = f"unexpected primitive inside |.|^2: {inner}"
+    elif lvl == "Matrix":
+        # (REAL|ABS) DIAG PTRACE* STATE
+        if "DIAG" not in core:
+            verdict = "probabilities are not the diagonal of the (reduced) density matrix"
+        elif "ABS2" in core or "SQUARE" in core:
+            verdict = "diagonal entries of a density matrix are squared"
+        else:
+            for (prim, detail) in sl.chain:
+                if prim == "PTRACE-LIT":
+                    for one_full in detail.split("|"):
+                        one, _, opn = one_full.partition("@")
+                        lay = _tensor_layout(fi, cfg, node, opn) if opn and opn != "?" else None
+                        okp = _ptrace_literal_ok(one, lay)
+                        if okp is False:
+                            verdict = f"`{one}` does not trace the (row, column) pair of one subsystem under the tensor's {lay} layout"
+                if prim == "GEN":
+                    if gen_ok.get(detail) is False:
+                        verdict = (f"the marginal is computed with ESC.{detail}, whose summary is not a partial trace "
+                                   "(row and column indices of the unmeasured members are summed independently: coherences leak into the probabilities)")
+                    elif gen_ok.get(detail) is None:
+                        verdict = None
+                if prim == "REDUCE":
+                    verdict = f"a plain sum ({detail}) is applied to a density tensor instead of a partial trace"
+    else:
+        return ("skip", "representation level at the draw is undetermined", det)
+    return ("bad", verdict, det) if verdict else ("ok", "", det)
+
+
 @rule("SAMP-e")
 def samp_e(repo: Repo) -> List[Ob]:
     obs: List[Ob] = []
@@ -292,57 +342,26 @@ def samp_e(repo: Repo) -> List[Ob]:
                 continue
             sl = Slice(repo, fi, cfg)
             sl.follow(p, node)
-            chain = [x for x, _ in sl.chain]
-            det = " ".join(f"{a}" + (f"<{b}>" if b and a in ("GEN", "PTRACE-LIT", "REDUCE") else "") for a, b in sl.chain)
-            if sl.unknown or "EINSUM?" in chain or not chain or chain[-1] != "STATE":
-                obs.append(skip("SAMP-e", fi, key, P, c, f"slice of p= not understood ({sl.unknown or 'ends at ' + (chain[-1] if chain else '?')}): {det}"))
-                continue
-            core = [x for x in chain if x not in ("SHAPE", "DIVSUM", "ARRAY")]
-            verdict = None
-            if lvl == "Vector":
-                # REDUCE/GEN(vector marginal)* ABS2 INDEX* STATE
-                if "ABS2" not in core:
-                    verdict = "amplitudes are not modulus-squared" + (" (only |.|, no square)" if "ABS" in core else "")
-                else:
-                    i = core.index("ABS2")
-                    inner = core[i + 1:]
-                    outer = core[:i]
-                    if any(x in ("REDUCE", "GEN") for x in inner):
-                        verdict = "the modulus-square is applied *after* the amplitudes of the other subsystems were summed (|sum a|^2 instead of sum |a|^2): interference between bystander components corrupts the marginal"
-                    elif any(x not in ("REDUCE", "GEN", "REAL", "INDEX") for x in outer):
-                        verdict = f"unexpected primitive outside |.|^2: {outer}"
-                    elif any(x not in ("INDEX", "STATE") for x in inner):
-                        verdict = f"unexpected primitive inside |.|^2: {inner}"
-            elif lvl == "Matrix":
-                # (REAL|ABS) DIAG PTRACE* STATE
-                if "DIAG" not in core:
-                    verdict = "probabilities are not the diagonal of the (reduced) density matrix"
-                elif "ABS2" in core or "SQUARE" in core:
-                    verdict = "diagonal entries of a density matrix are squared"
-                else:
-                    i = core.index("DIAG")
-                    inner = core[i + 1:]
-                    for (prim, detail) in sl.chain:
-                        if prim == "PTRACE-LIT":
-                            for one_full in detail.split("|"):
-                                one, _, opn = one_full.partition("@")
-                                lay = _tensor_layout(fi, cfg, node, opn) if opn and opn != "?" else None
-                                okp = _ptrace_literal_ok(one, lay)
-                                if okp is False:
-                                    verdict = f"`{one}` does not trace the (row, column) pair of one subsystem under the tensor's {lay} layout"
-                        if prim == "GEN":
-                            if gen_ok.get(detail) is False:
-                                verdict = (f"the marginal is computed with ESC.{detail}, whose summary is not a partial trace "
-                                           "(row and column indices of the unmeasured members are summed independently: coherences leak into the probabilities)")
-                            elif gen_ok.get(detail) is None:
-                                verdict = None
-                        if prim == "REDUCE":
-                            verdict = f"a plain sum ({detail}) is applied to a density tensor instead of a partial trace"
+            cases = [(lvl, sl)]
+            if sl.unknown and "reaching definitions of different forms" in sl.unknown and isinstance(p, ast.Name):
+                # one definition per representation level (a helper with `if Vector: return …  return …` spliced in):
+                # judge every definition at the level that holds where it is made
+                cases = []
+                for d in [d for d in cfg.reaching_defs(node, p.id) if d is not cfg.entry]:
+                    dl = set(lv.get(d, frozenset())) - {0}
+                    sub = Slice(repo, fi, cfg)
+                    sub.follow_def(d, p.id, 0)
+                    cases.append(("Vector" if dl == {1} else "Matrix" if dl == {2} else "level?", sub))
+            results = [_judge_born(fi, cfg, node, l_, s_, gen_ok) for l_, s_ in cases]
+            dets = "; ".join(f"{l_}: {r[2]}" for (l_, _), r in zip(cases, results)) if len(cases) > 1 else results[0][2]
+            if any(r[0] == "skip" for r in results):
+                why = next(r[1] for r in results if r[0] == "skip")
+                obs.append(skip("SAMP-e", fi, key, P, c, f"{why}: {dets}"))
+            elif any(r[0] == "bad" for r in results):
+                verdict = next(r[1] for r in results if r[0] == "bad")
+                obs.append(bad("SAMP-e", fi, key, P, c, f"{verdict}  [slice: {dets}]"))
             else:
-                obs.append(skip("SAMP-e", fi, key, P, c, f"representation level at the draw is undetermined: {det}"))
-                continue
-            (obs.append(bad("SAMP-e", fi, key, P, c, f"{verdict}  [slice: {det}]")) if verdict else
-             obs.append(ok("SAMP-e", fi, key, P, c, f"Born form: {det}")))
+                obs.append(ok("SAMP-e", fi, key, P, c, f"Born form: {dets}"))
     if sites < len(PROJECTIVE):
         raise AnalysisError(f"SAMP-e: {sites} projective sampler sites (floor: one per measuring function)")
     return obs
